@@ -20,10 +20,28 @@ pub enum Take {
     CloneHandle { u: usize },
     /// the i-th edge yielded by the node's outgoing iterator
     Edge { u: usize, i: usize },
-    Path { root: usize, target: usize, kind: SKind },
+    Path {
+        root: usize,
+        target: usize,
+        kind: SKind,
+        #[serde(default)]
+        transpose: bool,
+    },
     Cycle { root: usize, kind: SKind },
-    Found { root: usize, target: usize, kind: SKind },
-    Order { root: usize, post: bool, edges: bool },
+    Found {
+        root: usize,
+        target: usize,
+        kind: SKind,
+        #[serde(default)]
+        transpose: bool,
+    },
+    Order {
+        root: usize,
+        post: bool,
+        edges: bool,
+        #[serde(default)]
+        transpose: bool,
+    },
     /// a container holding the listed nodes
     Graph { members: Vec<usize> },
     /// scc() output of a container holding all nodes
@@ -124,14 +142,47 @@ fn use_slot<F: Flavour>(s: &Slot<F>) {
 }
 
 fn spec(kind: SKind, mode: SMode, target: Option<usize>) -> SearchSpec {
+    spec_t(kind, mode, target, false)
+}
+
+fn spec_t(kind: SKind, mode: SMode, target: Option<usize>, transpose: bool) -> SearchSpec {
     SearchSpec {
         kind,
         mode,
         target,
-        transpose: false,
+        transpose: transpose && !matches!(kind, SKind::PfsMin | SKind::PfsMax),
         closure: Closure::None,
         mask: 0,
     }
+}
+
+/// the nodes a request names: a result that is there at all must hold them (a path its two
+/// ends, a found node the target, an ordering its root, a listing every member)
+fn asked_for(t: &Take, n: usize) -> BTreeSet<usize> {
+    let mut k = BTreeSet::new();
+    match t {
+        Take::CloneHandle { u } | Take::Edge { u, .. } | Take::Cycle { root: u, .. } | Take::Order { root: u, .. } => {
+            k.insert(*u);
+        }
+        Take::Path { root, target, .. } => {
+            k.insert(*root);
+            k.insert(*target);
+        }
+        Take::Found { target, .. } => {
+            k.insert(*target);
+        }
+        Take::Graph { members } | Take::ToVec { members } | Take::GraphOps { members } => {
+            k.extend(members.iter().copied().filter(|x| *x < n));
+        }
+        Take::Scc | Take::RoundTrip { .. } => {
+            k.extend(0..n);
+        }
+        Take::RejectedInsert { u } => {
+            k.insert(*u);
+        }
+        Take::PathApi { .. } | Take::EdgeCmp { .. } => {}
+    }
+    k
 }
 
 fn take<F: Flavour>(w: &World<F>, t: &Take) -> Option<Slot<F>> {
@@ -153,8 +204,8 @@ fn take<F: Flavour>(w: &World<F>, t: &Take) -> Option<Slot<F>> {
             });
             got.map(|e| Slot::Edges(vec![e]))
         }
-        Take::Path { root, target, kind } if ok(*root) && ok(*target) => {
-            match F::search(&w.nodes[*root], &spec(*kind, SMode::Path, Some(*target)), &mut |_, _, _| true) {
+        Take::Path { root, target, kind, transpose } if ok(*root) && ok(*target) => {
+            match F::search(&w.nodes[*root], &spec_t(*kind, SMode::Path, Some(*target), *transpose && F::DIRECTED), &mut |_, _, _| true) {
                 SearchOut::Path(Some(p)) => Some(Slot::Edges(p)),
                 _ => None,
             }
@@ -165,16 +216,16 @@ fn take<F: Flavour>(w: &World<F>, t: &Take) -> Option<Slot<F>> {
                 _ => None,
             }
         }
-        Take::Found { root, target, kind } if ok(*root) && ok(*target) => {
-            match F::search(&w.nodes[*root], &spec(*kind, SMode::Find, Some(*target)), &mut |_, _, _| true) {
+        Take::Found { root, target, kind, transpose } if ok(*root) && ok(*target) => {
+            match F::search(&w.nodes[*root], &spec_t(*kind, SMode::Find, Some(*target), *transpose && F::DIRECTED), &mut |_, _, _| true) {
                 SearchOut::Node(Some(x)) => Some(Slot::Node(x)),
                 _ => None,
             }
         }
-        Take::Order { root, post, edges } if ok(*root) => {
+        Take::Order { root, post, edges, transpose } if ok(*root) => {
             let kind = if *post { SKind::Post } else { SKind::Pre };
             let mode = if *edges { SMode::Edges } else { SMode::Nodes };
-            match F::search(&w.nodes[*root], &spec(kind, mode, None), &mut |_, _, _| true) {
+            match F::search(&w.nodes[*root], &spec_t(kind, mode, None, *transpose && F::DIRECTED), &mut |_, _, _| true) {
                 SearchOut::Nodes(v) => Some(Slot::Nodes(v)),
                 SearchOut::Edges(v) => Some(Slot::Edges(v)),
                 _ => None,
@@ -313,6 +364,16 @@ fn run_inner<F: Flavour>(
     for t in &sc.takes {
         match caught(|| take::<F>(&world, t)) {
             Caught::Ok(s) => {
+                if let Some(slot) = &s {
+                    let has = mentions::<F>(slot);
+                    let empty_walk = matches!(slot, Slot::Edges(v) if v.is_empty());
+                    if let (false, Some(missing)) = (empty_walk, asked_for(t, n).into_iter().find(|k| !has.contains(k))) {
+                        return Some(Violation::new(
+                            "result-omits-node",
+                            format!("the result of {t:?} holds the nodes {has:?} and not node {missing}, which the request names: a held result keeps the nodes it is about alive"),
+                        ));
+                    }
+                }
                 if s.is_some() {
                     let k = format!("{t:?}");
                     stats.inc(&format!("take_{}", k.split(|c: char| !c.is_alphanumeric()).next().unwrap_or("").to_lowercase()));
@@ -487,10 +548,10 @@ impl Engine for Lifetime {
             takes.push(match rng.below(14) {
                 0..=1 => Take::CloneHandle { u },
                 2..=3 => Take::Edge { u, i: rng.below(3) },
-                4..=5 => Take::Path { root: u, target: v, kind: *rng.pick(&kinds) },
+                4..=5 => Take::Path { root: u, target: v, kind: *rng.pick(&kinds), transpose: directed && rng.chance(1, 3) },
                 6 => Take::Cycle { root: u, kind: *rng.pick(&kinds) },
-                7 => Take::Found { root: u, target: v, kind: *rng.pick(&kinds) },
-                8 => Take::Order { root: u, post: rng.coin(), edges: rng.coin() },
+                7 => Take::Found { root: u, target: v, kind: *rng.pick(&kinds), transpose: directed && rng.chance(1, 3) },
+                8 => Take::Order { root: u, post: rng.coin(), edges: rng.coin(), transpose: directed && rng.chance(1, 3) },
                 9 => Take::Graph { members: subset(rng) },
                 10 => {
                     if directed {
